@@ -52,7 +52,7 @@ def interp1 (p : Params) (dc : Int) (r : Rec) (w : W) (lab : String) : Option W 
     w.cur.map (fun pl => { w with pool := poolInsert pl w.pool })
   else if lab = "enqueue2(new FollowUpSurveyPlanner)" then
     some { w with queue := enq 2 (newPlan p r dc) w.queue }
-  else if lab = "pool_add(new FollowUpSurveyPlanner)" then
+  else if lab = "pool_add(new FollowUpSurveyPlanner)" ∨ lab = "pool_add(new StationaryFollowUpSurveyPlanner)" then
     some { w with pool := poolInsert (newPlan p r dc) w.pool }
   else none
 
@@ -125,6 +125,36 @@ theorem update_mobile_tie (o : Obj) (p : Params) (d dc : Int) (r : Rec) (st : St
         · by_cases c7 : 0 < r.rate
           · simp [update_mobile, updMobile, coreOf, interp, interp1, enq, he, hip, hiq, c1', c4', hgi, c5, hrr, hth, c6, c7, hdc]
           · simp [update_mobile, updMobile, coreOf, interp, interp1, enq, he, hip, hiq, c1', c4', hgi, c5, hrr, hth, c6, c7, hdc]
+
+/-- **`update_stationary` is `updStationary`** (non-ghost part) -/
+theorem update_stationary_tie (o : Obj) (p : Params) (d dc : Int) (r : Rec) (st : St) (h : Rel o p dc r st) :
+    let o' := (update_stationary o).1
+    ∃ w, interp p dc r o'.effects { pool := st.m.pool, queue := st.sh.queue } = some w ∧
+      coreOf r.site (updStationary p d dc r st)
+        = { pool := w.pool, queue := w.queue, inPool := o'.in_pool, inQueue := o'.in_queue,
+            count := (coreOf r.site (updStationary p d dc r st)).count }
+      ∧ o'.detection_count = ((updStationary p d dc r st).m.count : Rat) := by
+  obtain ⟨he, hip, hiq, hrr, hth, hgi, hdc, hpool, hqueue⟩ := h
+  by_cases c1 : st.m.inPool r.site = true
+  · obtain ⟨pl, hpl, hpi, hpt⟩ := hpool c1
+    cases hpk : poolTake r.site st.m.pool with
+    | mk x pool' =>
+      simp only [hpk] at hpl
+      subst hpl
+      have hsite : (updPlan p pl r.rate dc).site = r.site := by
+        rw [updPlan_site]; exact poolTake_site r.site st.m.pool pl (by rw [hpk])
+      by_cases c2 : geInst p (updPlan p pl r.rate dc).rate = true
+      · simp [update_stationary, updStationary, coreOf, interp, interp1, enq, he, hip, hiq, c1, hpi, c2, hpk, hdc,
+            flagSite, enqueue, setB, hsite]
+      · simp [update_stationary, updStationary, coreOf, interp, interp1, enq, he, hip, hiq, c1, hpi, c2, hpk, hdc]
+  · have c1' : st.m.inPool r.site = false := by simpa using c1
+    by_cases c4 : st.sh.inQueue r.site = true
+    · obtain ⟨pl, hpl, hpi, hpt⟩ := hqueue c1' c4
+      by_cases c2 : geInst p (updPlan p pl r.rate dc).rate = true
+      · simp [update_stationary, updStationary, coreOf, interp, interp1, enq, he, hip, hiq, c1', c4, hpi, c2, hpl, hdc, enqueue]
+      · simp [update_stationary, updStationary, coreOf, interp, interp1, enq, he, hip, hiq, c1', c4, hpi, c2, hpl, hdc, enqueue]
+    · have c4' : st.sh.inQueue r.site = false := by simpa using c4
+      simp [update_stationary, updStationary, coreOf, interp, interp1, enq, he, hip, hiq, c1', c4', hdc, setB]
 
 theorem all_translated : FollowUpSrc.untranslated = [] := by decide
 
